@@ -17,7 +17,9 @@ def run(*, tier, seed, jobs, progress, opts):
                        'and its shadow (count, UID per position, flags) is '
                        'compared with the stored mailbox (glass-box)'),
                    assumptions=[
-                       'dict backend, asyncio subsystem; <= 3 sessions',
+                       'dict backend, asyncio subsystem; <= 3 sessions; '
+                       'maildir: E7 thread/process interleavings of one '
+                       'command per session',
                        'stored truth read glass-box from MailboxData._messages',
                        'slots whose flags the server never reported are not '
                        'compared'])
@@ -25,6 +27,8 @@ def run(*, tier, seed, jobs, progress, opts):
 
 def replay(rec):
     r = rec['replay']
+    if r.get('mt02'):
+        return c01.replay_mt(r)
     p = dict(r['params'])
     p.pop('oracle', None)
     m = SeqModel(oracle='c02', **p)
